@@ -11,6 +11,8 @@ for p in ("work/confirm-seeds.log", "seeded/confirm.log"):
         for line in open(p):
             m = re.match(r"(C\d\d(?:-\d+)?): (.*)", line.strip())
             if m: confirm[m.group(1)] = m.group(2)
+            m = re.match(r"(C\d\d(?:-\d+)?) (rerun .*)", line.strip())
+            if m: confirm[m.group(1)] = confirm.get(m.group(1), "") + "; " + m.group(2)
 for sid in sorted(os.listdir(os.path.join(root, "seeded"))):
     d = os.path.join(root, "seeded", sid)
     if not os.path.isdir(d) or sid.endswith('-rejected'): continue
@@ -29,13 +31,14 @@ for sid in sorted(os.listdir(os.path.join(root, "seeded"))):
         "patch": "patch.diff",
         "demonstration": {"file": "demo/" + os.path.basename(demo.get("file", "")), "copy_to": demo.get("copy_to"), "command": demo.get("command")},
         "confirmed_by_me": {
-            "how": "tools/confirm_seed.sh in the scratch worktree /tmp/seed-%s (removed afterwards; second-wave seeds C<nn>-2 used /tmp/seed-C<nn> again): git apply patch.diff; cargo test --workspace --no-fail-fast --offline; demonstration copied in and run with the change; git apply -R; demonstration run without the change" % sid,
+            "how": "tools/confirm_seed.sh in the scratch worktree /tmp/seed-%s (removed afterwards; second-wave seeds C<nn>-2 used /tmp/seed-C<nn> again, third-wave seeds /tmp/seed3-C<nn>): git apply patch.diff; cargo test --workspace --no-fail-fast --offline; demonstration copied in and run with the change; git apply -R; demonstration run without the change" % sid,
             "result": confirm.get(sid, "not recorded"),
         },
         "checks_run_against_it": {
             "how": "tools/seedcheck.py: scratch copy of /repo with patch.diff applied, ./check <id> --tier quick --seed 1 with VERIF_REPO pointing at the copy",
             "results": r,
         },
+        "first_run_before_strengthening": json.load(open(os.path.join(d, "first_run.json"))) if os.path.exists(os.path.join(d, "first_run.json")) else None,
         "caught_by": sorted(k for k, v in r.items() if v.get("caught")),
         "agent_notes": a.get("ran"),
     }
